@@ -27,6 +27,9 @@ type c13Case struct {
 	After   bool     `json:"company_after,omitempty"`
 	// Ctx > 0: the rest of the configuration is invalid too (c13Contexts); the defective string must still be named
 	Ctx int `json:"invalid_context,omitempty"`
+	// Route 1: a middleware holds as many placeholder patterns; the Origins of its own Config() result are overwritten
+	// in place with the list and the result is handed to Reconfigure of that middleware
+	Route int `json:"route,omitempty"`
 	// Earlier: the process has just started and has validated these patterns (each alone, both DangerouslyTolerate*
 	// switches on) before anything else happened (see "fresh processes" in main.go)
 	Earlier []string `json:"earlier_in_a_fresh_process,omitempty"`
@@ -86,6 +89,26 @@ func c13Judge(k c13Case) *vlib.Failure {
 		return nil
 	}
 	m, err := cors.NewMiddleware(cfg)
+	if k.Route == 1 {
+		ph := make([]string, len(list))
+		for i := range ph {
+			ph[i] = fmt.Sprintf("https://placeholder%d.example", i)
+		}
+		m0, e0 := cors.NewMiddleware(cors.Config{Origins: ph, ExtraConfig: cfg.ExtraConfig})
+		if e0 != nil {
+			return vlib.Failf("placeholder configuration rejected: %v", e0)
+		}
+		cur := m0.Config()
+		if len(cur.Origins) == len(list) {
+			copy(cur.Origins, list)
+		} else {
+			cur.Origins = list
+		}
+		m, err = m0, m0.Reconfigure(cur)
+		if err != nil {
+			m = nil
+		}
+	}
 	_, perr := origins.ParsePattern(k.Pattern)
 	if (err == nil) != (perr == nil) {
 		return vlib.Failf("NewMiddleware (err=%v) and origins.ParsePattern (err=%v) disagree on %q", err, perr, k.Pattern)
@@ -467,12 +490,14 @@ func checkC13(c *vlib.Ctx) (string, string) {
 		nValid++
 		c.Nontrivial.Add(1)
 		ck.Try(c13Case{Pattern: s, Valid: true, How: "documented grammar"})
+		ck.Try(c13Case{Pattern: s, Valid: true, How: "documented grammar", Route: 1})
 		comps := c13Company(b)
 		for _, d := range defects {
 			if m, ok := d.f(b); ok {
 				nInvalid++
 				c.Nontrivial.Add(1)
 				ck.Try(c13Case{Pattern: m, How: d.name + " applied to " + s})
+				ck.Try(c13Case{Pattern: m, How: d.name + " applied to " + s, Route: 1})
 				for ctx := 1; ctx < len(c13Contexts); ctx++ {
 					nCompany++
 					ck.Try(c13Case{Pattern: m, How: d.name + " applied to " + s, Ctx: ctx})
@@ -481,6 +506,7 @@ func checkC13(c *vlib.Ctx) (string, string) {
 				for _, co := range comps {
 					nCompany += 2
 					ck.Try(c13Case{Pattern: m, How: d.name + " applied to " + s, Company: co})
+					ck.Try(c13Case{Pattern: m, How: d.name + " applied to " + s, Company: co, Route: 1})
 					ck.Try(c13Case{Pattern: m, How: d.name + " applied to " + s, Company: co, After: true})
 				}
 			}
